@@ -487,6 +487,11 @@ def compare_layer(ctx, case, obs, out, idx):
         if case['kind'] == 'infinite':
             if o['op'][0] == 'reset':
                 hist = 0
+                # "different symbols => different floats" is only demanded within one run between resets: the
+                # autoregression forgets its initial state, so two runs that end with the same long sequence of extrusions
+                # driven by the same normals converge and single elements come out bit-identical (observed after 69 equal
+                # extrusions) - a property of the process, not a disagreement
+                owner = {}
             for w in o['ext']:
                 hist = hist * 5 + WHERE_CODE[w]
             if int(kv['hist']) != hist:
